@@ -24,6 +24,8 @@ use tendermint::Time;
 use verif_harness::*;
 
 const N: u64 = 300;
+/// the second, long chain of the size-threshold phase (`init n=2100`): header h is 2101-h days old
+const BIG_N: u64 = 2100;
 const DAY: u64 = 24 * 60 * 60;
 
 struct Ctx {
@@ -41,7 +43,16 @@ struct Ctx {
 struct C25 {
     rt: tokio::runtime::Runtime,
     pool: Vec<ExtendedHeader>,
+    /// length of the chain in `pool` (`N`, or `BIG_N` after an `init n=2100`)
+    pool_n: u64,
     ctx: Option<Ctx>,
+}
+
+fn make_pool(n: u64) -> Vec<ExtendedHeader> {
+    let mut generator = ExtendedHeaderGenerator::new();
+    let first = (Time::now() - Duration::from_secs((n + 1) * DAY)).unwrap();
+    generator.set_time(first, Duration::from_secs(DAY));
+    generator.next_many_empty(n)
 }
 
 fn show_ranges(rs: &[std::ops::RangeInclusive<u64>]) -> String {
@@ -65,19 +76,15 @@ fn show_opt(o: Option<u64>) -> String {
 impl C25 {
     fn new() -> Self {
         let rt = tokio::runtime::Builder::new_current_thread().enable_time().build().unwrap();
-        let mut generator = ExtendedHeaderGenerator::new();
-        let first = (Time::now() - Duration::from_secs((N + 1) * DAY)).unwrap();
-        generator.set_time(first, Duration::from_secs(DAY));
-        let pool = generator.next_many_empty(N);
-        C25 { rt, pool, ctx: None }
+        C25 { rt, pool: make_pool(N), pool_n: N, ctx: None }
     }
 
     fn hdr(&self, h: u64) -> Option<ExtendedHeader> {
-        if h >= 1 && h <= N { Some(self.pool[(h - 1) as usize].clone()) } else { None }
+        if h >= 1 && h <= self.pool_n { Some(self.pool[(h - 1) as usize].clone()) } else { None }
     }
 
     fn span(&self, a: u64, b: u64) -> Option<Vec<ExtendedHeader>> {
-        if a >= 1 && a <= b && b <= N { Some(self.pool[(a - 1) as usize..b as usize].to_vec()) } else { None }
+        if a >= 1 && a <= b && b <= self.pool_n { Some(self.pool[(a - 1) as usize..b as usize].to_vec()) } else { None }
     }
 
     /// `h=<num> | tail | htail | head`, resolved against the REAL store
@@ -148,10 +155,163 @@ impl C25 {
                 Some(r) if merged == vec![r] && started == vec![r] && other == 0 => {
                     format!("req {}-{} {view}", r.0, r.1)
                 }
+                // A batch of more than 512 headers: the real HeaderSession keeps at most MAX_CONCURRENT_REQS = 8
+                // requests of MAX_AMOUNT_PER_REQ = 64 headers in flight, so after the single poll exactly 512
+                // heights of the batch are on the wire (the rest follows when an answer arrives).
+                Some(r)
+                    if r.1 - r.0 + 1 > 512
+                        && merged.len() == 1
+                        && merged[0].0 >= r.0
+                        && merged[0].1 <= r.1
+                        && merged[0].1 - merged[0].0 + 1 == 512
+                        && started == vec![r]
+                        && other == 0 =>
+                {
+                    format!("req {}-{} {view}", r.0, r.1)
+                }
                 o => format!("req? ongoing={o:?} wire={merged:?} started={started:?} other={other}"),
             }
         })
     }
+}
+
+/// `k` ascending disjoint ranges inside `2..=n-3` (S10)
+fn many_ranges(rng: &mut Rng, n: u64, k: u64) -> Vec<(u64, u64)> {
+    let q = ((n - 6) / k).max(2);
+    let mut rs = vec![];
+    let mut h = 2 + rng.below(2);
+    for _ in 0..k {
+        let len = rng.range(1, (q / 2).max(1));
+        let gap = rng.range(1, (q - q / 2).max(1));
+        rs.push((h, h + len - 1));
+        h += len + gap;
+    }
+    assert!(rs.last().unwrap().1 <= n - 2);
+    rs
+}
+
+/// `init` with the lowest range, `ins` of the others (each one a new head range), subjective head
+fn emit_build(out: &mut Emitter, n: u64, sw: u64, pw: u64, bs: u64, rs: &[(u64, u64)], head: u64, label: &str) {
+    let (a0, b0) = rs[0];
+    out.op(format!("init n={n} sw={sw} pw={pw} bs={bs} h0={a0}"), &format!("{label}/init"), false);
+    if b0 > a0 {
+        out.op(format!("ins a={} b={b0}", a0 + 1), &format!("{label}/ins"), false);
+    }
+    for &(a, b) in &rs[1..] {
+        out.op(format!("ins a={a} b={b}"), &format!("{label}/ins"), false);
+    }
+    out.op(format!("head h={head}"), &format!("{label}/head"), false);
+}
+
+/// Size-threshold stress (S10): a store of `k` ranges on the chain of `n` headers; the sampling-window edge placed
+/// at / around a range boundary or deep inside a range; fetch decisions interleaved with prunings of bounding
+/// headers and range ends, samplings, slow-sync heights, days passing, natural syncing (which merges ranges).
+fn many_scenario(rng: &mut Rng, out: &mut Emitter, n: u64, k: u64, rounds: usize) {
+    let label = format!("big/n{n}-{k}r");
+    let rs = many_ranges(rng, n, k);
+    let (top_s, top_e) = rs[rs.len() - 1];
+    // the window edge (highest height outside the sampling window): near the top two ranges (where the decision
+    // looks), at a random range boundary +-1, deep in the store, or nowhere (everything inside the window)
+    let pen = rs[rs.len() - 2];
+    let r = *rng.pick(&rs);
+    let edge_choices = [0, top_s - 1, top_s, top_e, top_e + 1, pen.1, pen.1 + 1, pen.0, r.0, r.1, r.1 + 1, (r.0 + r.1) / 2, n];
+    let e = *rng.pick(&edge_choices);
+    let sw = if e == 0 { n + 40 } else { n - e.min(n) };
+    let pw = match rng.below(3) {
+        0 => sw + 1,
+        1 => 0,
+        _ => sw + rng.below(30),
+    };
+    let bs = *rng.pick(&[1u64, 2, 7, 8, 9, 16, 17, 63, 64, 65, 127, 128, 129, 511, 512, 513]);
+    let head = *rng.pick(&[top_e, top_e, top_e + 1, top_e + 2, n]);
+    emit_build(out, n, sw, pw, bs, &rs, head, &label);
+    let interesting = e >= rs[0].0;
+    let mut pruned = false;
+    out.op("state", &format!("{label}/state"), false);
+    out.op("fetch", &format!("{label}/fetch"), interesting);
+    for _ in 0..rounds {
+        let nt = interesting || pruned;
+        match rng.below(12) {
+            0..=2 => {
+                for _ in 0..rng.range(1, 3) {
+                    out.op("prune h=htail", &format!("{label}/prune-bound"), true);
+                }
+                pruned = true;
+            }
+            3 => {
+                let r = *rng.pick(&rs);
+                out.op(format!("prune h={}", if rng.bool() { r.0 } else { r.1 }), &format!("{label}/prune-range-edge"), true);
+                pruned = true;
+            }
+            4 => {
+                out.op("prune h=tail", &format!("{label}/prune-tail"), true);
+                pruned = true;
+            }
+            5 => {
+                let i = rng.below(rs.len() as u64) as usize;
+                let j = (i + rng.range(0, 9) as usize).min(rs.len() - 1);
+                out.op(format!("sample a={} b={}", rs[i].0, rs[j].1), &format!("{label}/sample"), false);
+            }
+            6 => {
+                let v = *rng.pick(&[top_e, n, pen.1, top_s - 1]);
+                out.op(format!("slow h={v}"), &format!("{label}/slow"), false);
+            }
+            7 => out.op(format!("advance d={}", rng.range(1, 3)), &format!("{label}/advance"), true),
+            8 => out.op(
+                format!("bs n={}", *rng.pick(&[1u64, 8, 9, 63, 64, 65, 511, 512, 513])),
+                &format!("{label}/bs"),
+                false,
+            ),
+            _ => {
+                out.op("fetchkeep", &format!("{label}/fetchkeep"), nt);
+                out.op("deliver ok=1", &format!("{label}/deliver"), nt);
+            }
+        }
+        out.op("fetch", &format!("{label}/fetch"), interesting || pruned);
+    }
+    out.op("state", &format!("{label}/state"), false);
+    out.op("reset", "reset", false);
+}
+
+/// Size-threshold stress (S10): the slow-sync gate `available_for_sampling > max(batch_size / 2, 50)`: a store of
+/// `k` ranges holding exactly threshold + 2 unsampled heights inside the sampling window, then one height sampled
+/// at a time: threshold+2, +1 (no request), threshold, threshold-1 (request).
+fn slow_scenario(rng: &mut Rng, out: &mut Emitter, n: u64, bs: u64, k: u64) {
+    let thr = (bs / 2).max(50);
+    let total = thr + 2;
+    let k = k.min(total - 1);
+    let label = format!("thr/slow-bs{bs}-{k}r");
+    // k ranges with `total` heights altogether, single-height gaps
+    let mut rs = vec![];
+    let mut h = 2 + rng.below(3);
+    let mut left = total;
+    for i in 0..k {
+        let rest = k - i - 1;
+        let len = if rest == 0 { left } else { rng.range(1, (2 * (left - rest) / (rest + 1)).max(1).min(left - rest)) };
+        rs.push((h, h + len - 1));
+        left -= len;
+        h += len + rng.range(1, 2);
+    }
+    assert!(rs.last().unwrap().1 <= n - 2 && rs.iter().map(|r| r.1 - r.0 + 1).sum::<u64>() == total);
+    let top_e = rs[rs.len() - 1].1;
+    emit_build(out, n, n + 40, n + 41, bs, &rs, top_e, &label);
+    out.op(format!("slow h={n}"), &format!("{label}/slow"), false);
+    out.op("fetch", &format!("{label}/avail=thr+2"), true);
+    // sample one height of a different range each time
+    let mut picks: Vec<u64> = rs.iter().map(|r| r.0).collect();
+    rng.shuffle(&mut picks);
+    for (i, name) in ["avail=thr+1", "avail=thr", "avail=thr-1"].iter().enumerate() {
+        let x = picks[i % picks.len()] + (i / picks.len()) as u64;
+        out.op(format!("sample a={x} b={x}"), &format!("{label}/sample"), false);
+        out.op("fetch", &format!("{label}/{name}"), true);
+    }
+    // the threshold follows the batch size: batch_size / 2, at least 50
+    out.op(format!("bs n={}", bs + 2), &format!("{label}/bs+2"), false);
+    out.op("fetch", &format!("{label}/avail=thr-1,bs+2"), true);
+    out.op(format!("bs n={}", bs.saturating_sub(4).max(1)), &format!("{label}/bs-4"), false);
+    out.op("fetch", &format!("{label}/avail=thr-1,bs-4"), true);
+    out.op("state", &format!("{label}/state"), false);
+    out.op("reset", "reset", false);
 }
 
 impl Prop for C25 {
@@ -165,7 +325,14 @@ impl Prop for C25 {
          whole prefixes, sampling of ranges, slow-sync heights, peer loss, head bumps; a `fetch` after every few \
          mutations, days passing between any two operations (advance: header ages grow between request and response), \
          all through the real Worker::fetch_next_batch (observed at ongoing_batch.range, on the wire \
-         and as FetchingHeadersStarted).  Non-trivial = a fetch/fetchkeep/deliver op of a history in which at \
+         and as FetchingHeadersStarted); size-threshold stress (tags big/.., thr/..): stores built \
+         with 9 / 17 / 33 / 65 disjoint ranges (thorough: 8..90, 12 instances each) on the 300-chain and with 17 / 65 (thorough: \
+         129, 257) ranges on a second chain of 2100 headers (heights up to 2098), the sampling-window edge at / one around the \
+         boundaries of the top two ranges and of random ranges or deep inside one, batch sizes 7/8/9, 16/17, 63/64/65, 127/128/129, \
+         511/512/513, fetch after every mutation (prune bound / range edge / tail, sample, slow, advance, bs, fetchkeep+deliver); \
+         the slow-sync gate `available > max(bs/2, 50)` with exactly threshold+2 .. threshold-1 unsampled stored heights spread \
+         over 2..65 ranges for bs = 1, 100..103 (threshold 50/51), 128..130 (64/65), 1024..1026 (512/513, long chain); batches of \
+         511 / 512 / 513 / 1025 headers on the long chain (8 x 64 on the wire at a time).  Non-trivial = a fetch/fetchkeep/deliver op of a history in which at \
          least one header was pruned or a header older than the sampling window is stored; distinct = distinct \
          (op, result) lines."
     }
@@ -274,6 +441,49 @@ impl Prop for C25 {
             out.op("state", "state", false);
             out.op("reset", "reset", false);
         }
+        // size-threshold stress (S10)
+        let thorough = tier == Tier::Thorough;
+        let reps = if thorough { 12 } else { 1 };
+        for _ in 0..reps {
+            for k in [9u64, 17, 33, 65] {
+                many_scenario(rng, out, N, k, if thorough { 24 } else { 12 });
+            }
+            if thorough {
+                for k in [8u64, 16, 32, 64, 90] {
+                    many_scenario(rng, out, N, k, 24);
+                }
+            }
+        }
+        // SLOW_SYNC_MIN_THRESHOLD = 50 and batch_size / 2: 50/51, 64/65
+        for (bs, k) in [(1u64, 9u64), (100, 2), (101, 17), (102, 9), (103, 33), (128, 17), (129, 9), (130, 33)] {
+            slow_scenario(rng, out, N, bs, k);
+            if thorough {
+                slow_scenario(rng, out, N, bs, 2 * k + 1);
+            }
+        }
+        // large heights: the chain of 2100 headers
+        for _ in 0..reps {
+            many_scenario(rng, out, BIG_N, 17, if thorough { 24 } else { 10 });
+            many_scenario(rng, out, BIG_N, 65, if thorough { 24 } else { 10 });
+            if thorough {
+                many_scenario(rng, out, BIG_N, 129, 24);
+                many_scenario(rng, out, BIG_N, 257, 24);
+            }
+        }
+        for (bs, k) in [(1024u64, 65u64), (1025, 9), (1026, 33)] {
+            slow_scenario(rng, out, BIG_N, bs, k);
+        }
+        // batches of 511 / 512 / 513 / 1025 headers (the HeaderSession sends at most 8 x 64 at a time)
+        for bs in [511u64, 512, 513, 1025] {
+            let t = format!("thr/long-batch-bs{bs}");
+            out.op(format!("init n={BIG_N} sw={} pw={} bs={bs} h0=3", BIG_N + 100, BIG_N + 101), &format!("{t}/init"), false);
+            out.op(format!("head h={}", 1500 + rng.below(500)), &format!("{t}/head"), false);
+            out.op("fetchkeep", &format!("{t}/fetchkeep"), true);
+            out.op("deliver ok=1", &format!("{t}/deliver"), true);
+            out.op("fetch", &format!("{t}/fetch"), true);
+            out.op("state", &format!("{t}/state"), false);
+            out.op("reset", "reset", false);
+        }
     }
 
     fn result_tag(&self, line: &str, result: &str) -> Option<String> {
@@ -295,10 +505,15 @@ impl Prop for C25 {
             else {
                 return "bad-op".into();
             };
-            let Some(head) = self.hdr(h0) else { return "bad-op".into() };
-            if n != N {
+            if n != N && n != BIG_N {
                 return "bad-op".into();
             }
+            if n != self.pool_n {
+                self.ctx = None;
+                self.pool = make_pool(n);
+                self.pool_n = n;
+            }
+            let Some(head) = self.hdr(h0) else { return "bad-op".into() };
             let ctx = self.rt.block_on(async {
                 let (p2p, handle) = mocked_p2p();
                 let store = Arc::new(InMemoryStore::new());
